@@ -128,11 +128,13 @@ Record soak := mkS {
   s_init : nat;
   s_final : option nat;      (* counter afterwards; None = table missing / unreadable *)
   s_exits : list nat;        (* per process: 0 = exit 0, 1 = lock timeout, 2 = file does not exist, 3 = anything else *)
-  s_leftover : nat           (* control files left in the directory *)
+  s_leftover : nat;          (* control files left in the directory *)
+  s_atomic : bool            (* COMMIT renames over the table: "does not exist" is then not excused *)
 }.
 Definition soak_counter_ok (x : soak) : bool :=
   onat_eqb (s_final x) (Some (s_init x + count_if (Nat.eqb 0) (s_exits x))) && Nat.eqb (s_leftover x) 0.
-Definition soak_errors_ok (x : soak) : bool := forallb (fun e => e <=? 2) (s_exits x).
+Definition soak_errors_ok (x : soak) : bool :=
+  forallb (fun e => e <=? (if s_atomic x then 1 else 2)) (s_exits x).
 
 (* result: (kind, id).  1 = model and implementation disagree after some event; 2 = the observed
    states themselves break exclusion / serialisation; 3 = soak: lost or duplicated update, or
